@@ -109,7 +109,7 @@ def expect(comments, path):
             rest = rest[m.end():].strip(SPACE)
             if rest.startswith(":"):
                 rest = rest.lstrip(":").strip(SPACE)
-        exp.append({"Filename": path, "Line": line, "Assignee": assignee, "Message": rest})
+        exp.append({"Filename": path, "Line": line, "Assignee": assignee, "Message": rest, "Block": kind == "block"})
     return exp
 
 
@@ -210,6 +210,11 @@ def oracle(case, out, raw):
         miss = [e for e in exp if e not in got][:2]
         extra = [g for g in got if g not in exp][:2]
         ds.append(("todo-report-differs", "missing %s spurious %s" % (miss, extra)))
+    else:
+        for t, e in zip(out["todos"], case["expected"]):
+            # the terminator of a block comment is not part of its text (one-line block comments included)
+            if e.get("Block") and "*/" in t["Message"]:
+                ds.append(("todo-message-keeps-terminator", "block comment at line %d: message %r carries the comment terminator" % (t["Line"], t["Message"])))
     return ds
 
 
